@@ -282,10 +282,14 @@ pub fn run(ctx: &Ctx) -> (Stats, Spec) {
     let wk_iters = ctx.tier.pick(3_000u64, 60_000u64);
     let parts = util::par_jobs(16, |job| super::weak::weak_hash_job(ctx, "C04", job, wk_iters));
     st.merge(crate::report::merge_all(parts));
+    let wide_iters = ctx.tier.pick(400u64, 8_000u64);
+    let parts = util::par_jobs(16, |job| super::wide::wide_job(ctx, "C04", job, wide_iters));
+    st.merge(crate::report::merge_all(parts));
     let spec = Spec {
-        rule: "f ranges over all functions of 3 (4) variables embedded among outside labels, V over all lists up to length 3 incl. repeated, outside-support and empty lists; random f over 4-7 sparse labels with lists up to length 6; language forms `exists|any|forall|all <list>[,] # <body>` with DNF bodies and with random bodies using every connective. distinct = (table, set(V), quantifier, family); non-trivial = V meets the support of a non-constant f.".into(),
+        rule: "f ranges over all functions of 3 (4) variables embedded among outside labels, V over all lists up to length 3 incl. repeated, outside-support and empty lists; random f over 4-7 sparse labels with lists up to length 6; language forms `exists|any|forall|all <list>[,] # <body>` with DNF bodies and with random bodies using every connective. distinct = (table, set(V), quantifier, family); non-trivial = V meets the support of a non-constant f. MANY VARIABLES: the same judgement on environments with 65-200 variables (more than a machine word of them), where operands are random DNFs and results are compared pointwise on 48 sampled assignments per case (biased towards the operands' cubes) and walked for order / reduction.".into(),
         assumptions: vec!["value of a result is read by walking it; support is computed from the operand's truth table".into()],
         floors: vec![
+            ("many_variable_cases".into(), 1_000, "environments with more than 64 variables never exercised".into()),
             ("weak_hash_symbol_calls".into(), 2_000, "environment over a constant-hash symbol type never exercised".into()),
             ("exists".into(), 10_000, "exists never exercised".into()),
             ("all".into(), 10_000, "all never exercised".into()),
@@ -300,6 +304,10 @@ pub fn run(ctx: &Ctx) -> (Stats, Spec) {
 }
 
 pub fn replay(_ctx: &Ctx, _monitor: &str, case: &Value, st: &mut Stats) {
+    if case.get("kind").and_then(|k| k.as_str()) == Some("wide") {
+        super::wide::replay_wide(_ctx, "C04", case, st);
+        return;
+    }
     if case.get("kind").and_then(|k| k.as_str()) == Some("weak-hash") {
         let job = case.get("job").and_then(|j| j.as_u64()).unwrap_or(0) as usize;
         let mut c2 = _ctx.clone();
